@@ -134,7 +134,8 @@ def opaque(name, params, text, stateful=False):
 
 
 class Axiom:
-    def __init__(self, name, text, types, note):
+    def __init__(self, name, text, types, note, only=None):
+        self.only = only        # None: everywhere; else the functions (qualified-name suffixes) whose proofs may use it
         self.name = name
         self.text = " ".join(text.split())
         self.ast = ast.parse(self.text, mode="eval").body
@@ -142,8 +143,8 @@ class Axiom:
         self.note = note
 
 
-def axiom(name, text, note="", **types):
-    AXIOMS.append(Axiom(name, text, types, note))
+def axiom(name, text, note="", only=None, **types):
+    AXIOMS.append(Axiom(name, text, types, note, only))
 
 
 def trusted(text):
